@@ -30,8 +30,8 @@ XScripts(c) == {x \in Scripts :
 
 Alphabet ==
   {[e |-> "accept"], [e |-> "hello"]}
-  \cup {[e |-> "clear", k |-> k] : k \in {"starttls", "bind", "other", "junk"}}
-  \cup {[e |-> "result", r |-> r, late |-> l] : r \in {"ok", "err", "pending", "panic"}, l \in BOOLEAN}
+  \cup {[e |-> "clear", k |-> k] : k \in {"starttls", "bind", "unbind", "other", "junk"}}
+  \cup {[e |-> "result", r |-> r, late |-> l, held |-> h] : r \in {"ok", "err", "pending", "panic"}, l \in BOOLEAN, h \in {0, 1}}
   \cup {[e |-> "bindseen", ch |-> c] : c \in {"tls", "clear"}}
   \cup {[e |-> "bindresult", rc |-> n] : n \in {0, 49, 99}}
 
@@ -47,6 +47,7 @@ Inv ==
   /\ InjectedNeverParsed(cfg, s)
   /\ TimeoutBoundsAll(cfg, s)
   /\ FaultsFail(cfg, sc, s)
+  /\ EstablishedClean(s)
 
 (* states reachable for one script; Verdict is tight: every result it       *)
 (* allows is reachable, and nothing else is                                 *)
